@@ -586,6 +586,8 @@ func checkC12(res *Result) {
 	res.Rule("C12-R5", "literal codecs: the duration reader and writer use 365-day years, 30-day months, 24-hour days with the same factors in both directions and emit a unit when at least one whole unit remains; dateTime is written and first read as RFC 3339; the other codecs write the value itself")
 	checkCodecs(res, S, "C12-R5")
 	res.Functions = len(M.Types) + len(M.Props)
+	res.Rule("C12-R7", "typed accessors: GetType / SetType of every property cover each type-valued kind of its range and pair each with its own getter / setter (shared with C18-R4)")
+	checkTypeAccessorTables(res, "C12-R7", nil)
 	res.Rule("C12-R6", "a non-functional property holds the document's list in order also when walked with Begin/Next/Prev: every decoder numbers the elements it produces 0..n-1 and links them to the container (shared with C18-R1)")
 	checkDecodedContainers(res, "C12-R6", "a walk with Begin/Next skips or repeats elements: the list seen through the iterator accessors is not the document's list")
 	res.Assumptions = append(res.Assumptions, "the ontology reader's interpretation of domain / range / unionOf / subClassOf / @wtf_without_property / @wtf_typeless", "go/types resolution of Manager methods to packages")
